@@ -5,7 +5,7 @@
    _mpi_iter_unordered, commit cd002ec: [fb = true]; patch dictionaries sent with ssend,
    commit aeec5f0: [dm = Sync]); the [_refuted] theorems document the pinned algorithms
    ([fb = false]; [dm = sm = Eager]) and the findings F13a / F13b. *)
-From Verif Require Import Prelude Dispatch DispatchP MpiWrite MpiWriteP RankMemo RankMemoP.
+From Verif Require Import Prelude Dispatch DispatchP MpiWrite MpiWriteP RankMemo RankMemoP DispatchRetry DispatchRetryP.
 From Coq Require Import Permutation.
 Open Scope nat_scope.
 
@@ -612,4 +612,161 @@ Example C06_world_concrete :
   c06_memo_case 2 h [1; 1; 0; 2; 2; 2] = 1 /\
   map enc (mreads PPrivate minit h) = [1; 1; 0; 1; 2; 2] /\
   map enc (mreads PValidated minit h) = [1; 1; 0; 2; 2; 2].
+Proof. vm_compute. repeat split; reflexivity. Qed.
+
+(* ------------------------------------------------------------------------------------------
+   How OFTEN a job is executed; jobs that fail TRANSIENTLY (Model/DispatchRetry.v).
+   The theorems above take the failure of a job as a property of the task ([fails t]) and count the
+   task MESSAGES.  Here the outcome of every single execution is chosen by the environment (the flag of
+   [XExec i failed] / [XFallback failed]): a job may fail on its first execution only, always, on one rank
+   only, with whatever exception.  [xlog] = the execution log, one entry (task, rank, failed?) per call of
+   the job function, read as a multiset.  A run = a list of choices ([xrun]); [POnce] = the worker of
+   utils/parallel.py (one execution per task received, result or error is sent), [PRetry] = a worker
+   that runs a job again after an error it considers transient.  For every task list, number of workers,
+   rank set, schedule and outcome of every execution.
+   ------------------------------------------------------------------------------------------ *)
+
+(* every run is finite, and a run that is not over can always go on (both workers) *)
+Theorem C06_exec_terminates :
+  forall (T R : Type) (f : T -> R) pol transient allowed n cs (s s' : xst T R),
+  xrun f pol transient allowed n cs s = Some s' -> length cs + xmu s' <= xmu s.
+Proof. exact @xrun_bounded. Qed.
+Print Assumptions C06_exec_terminates.
+
+Theorem C06_exec_progress :
+  forall (T R : Type) (f : T -> R) pol transient allowed n (s : xst T R),
+  xdone s = false -> exists c s', xstep_with f pol transient allowed n c s = Some s'.
+Proof. exact @xprogress. Qed.
+Print Assumptions C06_exec_progress.
+
+(* EVERY terminating run, failing or not: the tasks handed out - all but the suffix still pending when
+   the first error arrived - are in the execution log exactly once, the others not at all *)
+Theorem C06_exec_exactly_once :
+  forall (T R : Type) (f : T -> R) transient allowed n tasks cs (s : xst T R),
+  xrun f POnce transient allowed n cs (xinit tasks) = Some s -> xdone s = true ->
+  exists h, tasks = h ++ xpend s /\ Permutation h (map (@etask T) (xlog s)).
+Proof. exact @xonce_executed_exactly_once. Qed.
+Print Assumptions C06_exec_exactly_once.
+
+(* the log as a multiset: no task id occurs twice in the log of a terminating run; in a run that ends
+   without the error flag every task id occurs exactly once *)
+Theorem C06_exec_count :
+  forall (T R : Type) (f : T -> R) transient allowed n (eq_dec : forall x y : T, {x = y} + {x <> y}) tasks cs (s : xst T R),
+  NoDup tasks -> xrun f POnce transient allowed n cs (xinit tasks) = Some s -> xdone s = true ->
+  forall t, count_occ eq_dec (map (@etask T) (xlog s)) t <= 1
+            /\ (xerr s = None -> In t tasks -> count_occ eq_dec (map (@etask T) (xlog s)) t = 1).
+Proof. exact @xonce_count_occ. Qed.
+Print Assumptions C06_exec_count.
+
+(* the ranks raise iff SOME execution failed - first execution, only execution, on whatever rank - and
+   then the error of a failed execution; every rank gets the root's flag *)
+Theorem C06_exec_error_iff :
+  forall (T R : Type) (f : T -> R) transient allowed n tasks cs (s : xst T R),
+  xrun f POnce transient allowed n cs (xinit tasks) = Some s -> xdone s = true ->
+  (xerr s <> None <-> exists e, In e (xlog s) /\ efail e = true)
+  /\ (forall t, xerr s = Some t -> exists w, In (t, w, true) (xlog s))
+  /\ xout s = repeat (xerr s) (S n).
+Proof. exact @xonce_error_iff. Qed.
+Print Assumptions C06_exec_error_iff.
+
+(* without the error flag: every task executed once, no execution failed, the root yielded map f tasks *)
+Theorem C06_exec_no_error_result :
+  forall (T R : Type) (f : T -> R) transient allowed n tasks cs (s : xst T R),
+  xrun f POnce transient allowed n cs (xinit tasks) = Some s -> xdone s = true -> xerr s = None ->
+  Permutation tasks (map (@etask T) (xlog s)) /\ Permutation (map f tasks) (xgot s)
+  /\ Forall (fun e => efail e = false) (xlog s).
+Proof. exact @xonce_no_error_result. Qed.
+Print Assumptions C06_exec_no_error_result.
+
+(* where failing is a property of the task (in particular "fails on its first execution", since there
+   is no second one): the ranks raise iff the single-process run raises *)
+Theorem C06_exec_agrees_with_single_process :
+  forall (T R : Type) (f : T -> R) transient allowed n tasks cs (s : xst T R),
+  xrun f POnce transient allowed n cs (xinit tasks) = Some s -> xdone s = true ->
+  forall bad : T -> bool, (forall e, In e (xlog s) -> efail e = bad (etask e)) ->
+  (xerr s <> None <-> xseq bad tasks <> None).
+Proof. exact @xonce_agrees_with_single_process. Qed.
+Print Assumptions C06_exec_agrees_with_single_process.
+
+(* a worker that re-runs jobs is the worker above as long as no error it considers transient occurs -
+   no run without such a failure can tell them apart ... *)
+Theorem C06_retry_invisible_without_transient_errors :
+  forall (T R : Type) (f : T -> R) tr allowed n c (s : xst T R),
+  xstep_with f PRetry (fun _ => false) allowed n c s = xstep_with f POnce tr allowed n c s.
+Proof. exact xretry_invisible_without_transient_errors. Qed.
+Print Assumptions C06_retry_invisible_without_transient_errors.
+
+(* ... but whenever a task's first execution fails transiently and the second succeeds, the task is in
+   the log twice and what the root receives is a result: the error is gone *)
+Theorem C06_retry_executes_twice :
+  forall (T R : Type) (f : T -> R) tr allowed n i t r (s : xst T R),
+  xdone s = false -> xtake i (xfl s) = Some (XHas t, r) -> tr t = true ->
+  exists s', xrun f PRetry tr allowed n [XExec i true; XExec i false] s = Some s'
+             /\ xlog s' = xlog s ++ [(t, S i, true); (t, S i, false)]
+             /\ xfl s' = (i, XOut (Ok (f t))) :: r /\ xerr s' = xerr s.
+Proof. exact xretry_executes_twice. Qed.
+Print Assumptions C06_retry_executes_twice.
+
+(* refutation: 3 ranks, tasks 10 11 12, the FIRST execution of 11 fails.  The single-process run raises.
+   With the retrying worker all ranks return, nobody raises, the root has all three results, task 11 is
+   in the execution log twice; the same events are no run of the worker above (event 4, the second
+   execution on worker 2, is not enabled) *)
+Theorem C06_retry_refuted :
+  exists s : xst nat nat,
+    xrun c06_f PRetry (fun _ => true) (c06_allowed [0; 1; 2]) 2 xretry_run (xinit [10; 11; 12]) = Some s /\
+    xdone s = true /\ xerr s = None /\ xout s = [None; None; None] /\
+    xgot s = [31; 34; 37] /\ xgot s = map c06_f [10; 11; 12] /\
+    xlog s = [(10, 1, false); (11, 2, true); (11, 2, false); (12, 1, false)] /\
+    count_occ Nat.eq_dec (map (@etask nat) (xlog s)) 11 = 2 /\
+    xseq (c06_fails [11]) [10; 11; 12] = Some 11 /\
+    ~ Permutation [10; 11; 12] (map (@etask nat) (xlog s)).
+Proof. exact xretry_refuted. Qed.
+Print Assumptions C06_retry_refuted.
+
+Theorem C06_retry_run_not_once :
+  xrun c06_f POnce (fun _ => true) (c06_allowed [0; 1; 2]) 2 xretry_run (xinit [10; 11; 12]) = None
+  /\ xfirst_disabled c06_f POnce (fun _ => true) (c06_allowed [0; 1; 2]) 2 xretry_run (xinit [10; 11; 12]) = 4.
+Proof. exact xretry_run_not_once. Qed.
+Print Assumptions C06_retry_run_not_once.
+
+(* the checker of the execution records: code 0 = no task executed twice, the ranks end alike, they raise
+   iff an execution failed (the error of a failed execution, with the exception class the job raised for
+   that task), without an error every task was executed, and - where it is defined - the outcome is the
+   single-process one *)
+Theorem C06_exec_case_sound :
+  forall nw ranks tasks cs ex got log out cls bad0,
+  c06_xdispatch_case nw ranks tasks cs ex got log out cls bad0 = 0 ->
+  nsubm (map (fun e => fst (fst e)) log) tasks = true
+  /\ (length out =? S nw) && forallb (onn_eqb (match out with o :: _ => o | [] => None end)) out = true
+  /\ match (match out with o :: _ => o | [] => None end) with
+     | None => forallb (fun e => negb (snd e)) log = true
+               /\ nlist_eqb (nsort (map (fun e => fst (fst e)) log)) (nsort tasks) = true
+     | Some (t, c) => existsb (fun e => (fst (fst e) =? t) && snd e) log = true /\ nlookup t cls = Some c
+     end
+  /\ match bad0 with
+     | None => True
+     | Some l => is_some (match out with o :: _ => o | [] => None end) = is_some (xseq (c06_fails l) tasks)
+     end.
+Proof. exact xdispatch_case_sound. Qed.
+Print Assumptions C06_exec_case_sound.
+
+(* non-vacuity: world size 3, tasks 10 11 12.  The first execution of 11 fails on rank 2 (exception class 7):
+   root yields 31, hands 12 to rank 1, receives the error, drops the result for 12, all ranks raise the
+   error of 11 with class 7, as the single-process run does: code 0.  The observation of the retrying
+   worker - 11 executed twice, everybody returns, all results there: event 4 not enabled (flag0, 256 * 5),
+   error masked (flag2), executed twice (flag3, flag5), not the single-process outcome (flag6).  The
+   first observation with another exception class on the ranks: flag7.  max_workers = 1, the root's own
+   second execution fails: code 0 *)
+Example C06_exec_concrete :
+  c06_xdispatch_case 2 [0; 1; 2] [10; 11; 12]
+    [XHand 0; XHand 1; XExec 0 false; XExec 1 true; XReport 0; XHand 0; XReport 1; XExec 0 false; XReport 0; XFinish]
+    true [31] [(10, 1, false); (11, 2, true); (12, 1, false)] [Some (11, 7); Some (11, 7); Some (11, 7)] [(11, 7)] (Some [11]) = 0 /\
+  c06_xdispatch_case 2 [0; 1; 2] [10; 11; 12] xretry_run
+    true [31; 34; 37] [(10, 1, false); (11, 2, true); (11, 2, false); (12, 1, false)] [None; None; None] [(11, 7)] (Some [11])
+    = 1 + 4 + 8 + 32 + 64 + 256 * 5 /\
+  c06_xdispatch_case 2 [0; 1; 2] [10; 11; 12]
+    [XHand 0; XHand 1; XExec 0 false; XExec 1 true; XReport 0; XHand 0; XReport 1; XExec 0 false; XReport 0; XFinish]
+    true [31] [(10, 1, false); (11, 2, true); (12, 1, false)] [Some (11, 3); Some (11, 3); Some (11, 3)] [(11, 7)] None = 128 /\
+  c06_xdispatch_case 2 [0] [10; 11] [XFallback false; XFallback true; XFinish]
+    false [0] [(10, 0, false); (11, 0, true)] [Some (11, 2); Some (11, 2); Some (11, 2)] [(11, 2)] (Some [11]) = 0.
 Proof. vm_compute. repeat split; reflexivity. Qed.
